@@ -8,6 +8,7 @@ import (
 	"io"
 	"reflect"
 	"runtime/debug"
+	"sync"
 	"testing"
 
 	"github.com/bluenviron/gomavlib/v3/pkg/dialect"
@@ -34,10 +35,17 @@ type scriptReader struct {
 	errFired  bool
 	errSticky bool
 	reads     int
+	// idleN > 0: at position idleAt the transport returns (0, nil) idleN times in a row (an idle link that was opened with
+	// a read timeout, a misbehaving wrapper) before it goes on
+	idleAt, idleN, idled int
 }
 
 func (s *scriptReader) Read(p []byte) (int, error) {
 	s.reads++
+	if s.idleN > 0 && s.pos == s.idleAt && s.idled < s.idleN {
+		s.idled++
+		return 0, nil
+	}
 	if s.errAt >= 0 && s.pos == s.errAt && (!s.errFired || s.errSticky) {
 		s.errFired = true
 		return 0, errInjected
@@ -120,6 +128,7 @@ func (e *c05env) run(stream []byte, sr *scriptReader, tag string) (res []rdResul
 	if sr.errAt >= 0 {
 		maxCalls++ // one extra call reports the injected error
 	}
+	maxCalls += sr.idleN/100 + 1
 	for calls := 1; ; calls++ {
 		before := consumed()
 		fr, err := rd.Read()
@@ -134,7 +143,8 @@ func (e *c05env) run(stream []byte, sr *scriptReader, tag string) (res []rdResul
 		case err != nil && errors.As(err, &re):
 			r.class = 1
 			r.desc = "E:" + err.Error()
-		case err == io.EOF || err == errInjected:
+		case err == io.EOF || err == errInjected || (err == io.ErrNoProgress && sr.idleN > 0):
+			// (io.ErrNoProgress is what the buffered reader makes of a transport that keeps returning nothing: the transport's doing)
 			r.class = 2
 			r.desc = "T:" + err.Error()
 		default:
@@ -292,6 +302,35 @@ func (e *c05env) check(stream []byte, r *vh.RNG, allSegs bool) []rdResult {
 		e.rep.Count("streams_with_all_segmentations", 1)
 	}
 	return whole
+}
+
+// idles lets the transport return nothing, k times in a row, at frame boundaries and inside frames. Totality, result
+// classes and progress hold as ever (an idle stretch is not a parse error that consumes nothing); with the idle stretch at
+// a frame boundary every frame of a clean stream is still returned.
+func (e *c05env) idles(stream []byte, frames []*ref.FrameSpec, r *vh.RNG) {
+	var bounds []int
+	off := 0
+	for _, f := range frames {
+		w := ref.Serialize(f)
+		idx := bytes.Index(stream[off:], w)
+		if idx < 0 {
+			return
+		}
+		bounds = append(bounds, off+idx, off+idx+len(w))
+		off += idx + len(w)
+	}
+	for _, n := range []int{1, 7, 99, 100, 101, 250} {
+		at := bounds[r.Intn(len(bounds))]
+		e.rep.Eval(1)
+		e.rep.Count("idle_transport_runs", 1)
+		res, ok := e.run(stream, &scriptReader{data: stream, errAt: -1, every: 64, idleAt: at, idleN: n}, fmt.Sprintf("idle x%d @%d (frame boundary)", n, at))
+		if ok {
+			e.completeness(stream, frames, res)
+		}
+		mid := r.Intn(len(stream) + 1)
+		e.rep.Eval(1)
+		_, _ = e.run(stream, &scriptReader{data: stream, errAt: -1, every: 64, idleAt: mid, idleN: n}, fmt.Sprintf("idle x%d @%d", n, mid))
+	}
 }
 
 // faults injects a transport error at every byte offset (transient and persistent).
@@ -629,6 +668,58 @@ func TestC05(t *testing.T) {
 				rep.Count("small_buffer_streams", 1)
 			}
 		}
+	}
+
+	// (b3) a transport that returns nothing for a while (idle link), at frame boundaries and inside frames
+	for ei, env := range []*c05env{plain, withD, withDK} {
+		g := &c05gen{r: vh.Sub(seed, fmt.Sprintf("c05-idle-%d", ei)), env: env, msgs: msgs, tsNext: 1000}
+		for i := 0; i < vh.Pick(40, 1000); i++ {
+			stream, frames := g.cleanStream(1500)
+			env.idles(stream, frames, g.r)
+		}
+	}
+
+	// (b4) several readers, each with its own stream and goroutine, sharing one dialect (as the channels of a node do); the
+	// streams are dense with v2 frames of one and the same message type whose payloads were truncated on the wire
+	{
+		mi := msgs[0]
+		for _, c := range msgs {
+			if c.Layout.SizeExt > mi.Layout.SizeExt && c.Layout.SizeExt <= 255 {
+				mi = c
+			}
+		}
+		var wg sync.WaitGroup
+		for gi := 0; gi < 8; gi++ {
+			wg.Add(1)
+			gr := vh.Sub(seed, fmt.Sprintf("c05-shared-%d", gi))
+			go func() {
+				defer wg.Done()
+				for round := 0; round < vh.Pick(6, 100); round++ {
+					var stream []byte
+					var frames []*ref.FrameSpec
+					for len(frames) < 200 {
+						sp, _ := validFrame(gr, mi, 2, 0, false, nil)
+						if len(sp.Payload) >= mi.Layout.SizeExt {
+							continue // not truncated
+						}
+						frames = append(frames, sp)
+						stream = append(stream, ref.Serialize(sp)...)
+					}
+					res, ok := withD.run(stream, &scriptReader{data: stream, errAt: -1, every: 500}, "shared dialect, concurrent readers")
+					if !ok {
+						return
+					}
+					for k := range res {
+						if res[k].class == 0 {
+							withD.frameBytes(stream, &res[k], "shared dialect, concurrent readers")
+						}
+					}
+					withD.completeness(stream, frames, res)
+					rep.Count("streams_read_concurrently_with_a_shared_dialect", 1)
+				}
+			}()
+		}
+		wg.Wait()
 	}
 
 	// (c) transport error at every byte offset
